@@ -239,6 +239,13 @@ fn c14_program(rng: &mut Rng) -> String {
     s
 }
 
+/// method names a value might be expected to answer, but which FML does not define on primitives and arrays
+pub const EXTRA_METHOD_NAMES: [&str; 72] = [
+    "length", "len", "size", "count", "push", "pop", "append", "add_all", "insert", "remove", "clear", "first", "last", "head", "tail", "at", "put", "fill", "copy", "clone", "slice", "concat", "reverse", "sort", "map",
+    "each", "contains", "index_of", "is_empty", "to_string", "toString", "str", "show", "print", "println", "equals", "compare", "hash", "not", "neg", "negate", "abs", "min", "max", "pow", "sqrt", "inc", "dec", "succ",
+    "pred", "is_null", "is_int", "is_array", "type", "class", "parent", "super", "self", "this", "xor", "shl", "shr", "lte", "gte", "ne", "equal", "plus", "minus", "times", "divide", "modulo", "length_",
+];
+
 /// One access site, many receivers: helper functions whose single field read / field write / method
 /// call / operator / index instruction is executed with receivers of different layouts (same field
 /// names in another order or at another position, own versus inherited methods, objects overriding
@@ -335,6 +342,62 @@ pub fn c14(ctx: &Ctx, rep: &mut Report) {
         return;
     }
     let dir = ctx.scratch("c14");
+    // the deterministic object-model shapes (name clashes between fields, methods and built-ins,
+    // resolution depths, one site with many receivers …), in-process and through the CLI
+    let mut ks = 0u64;
+    for (name, src) in super::common::stress_sources() {
+        let wanted = [
+            "member-name-clashes", "polymorphic-sites", "methods-named-like-builtins", "method-resolution-depths", "this-chains-and-self-fields", "readme-objects", "constructor-instances",
+            "same-text-function-and-method", "one-literal-many-chains", "shared-values", "nested-object-literals", "method-254-args", "many-methods", "many-fields",
+        ];
+        if !wanted.contains(&name.as_str()) {
+            continue;
+        }
+        ks += 1;
+        if !ctx.mine(ks) {
+            continue;
+        }
+        if let Ok(ast) = real::parse(&src) {
+            let mut rng = ctx.rng("C14stress", ks);
+            let j = judge(rep, "C14", &format!("stress:{}", name), &ast, &src, &mut rng, JudgeOpts::full());
+            if j.judged {
+                judge_cli(rep, "C14", &format!("stress:{}", name), &src, &j.outcome, &dir, ks);
+                rep.bump("c14-generator", "fixed object-model shapes");
+            } else {
+                rep.inconsistency(format!("fixed object-model shape {} is not judged by the reference: {:?}", name, j.outcome.res));
+            }
+        }
+    }
+    // primitives and arrays supply exactly their documented built-ins: every other plausible method
+    // name fails at the end of the chain (directly, and through objects extending the value),
+    // with 0, 1 and 2 arguments
+    let mut kb = 0u64;
+    let receivers = [
+        "1", "true", "null", "array(2, 5)", "(object extends array(2, 5) begin let own = 1; end)", "(object extends 7 begin end)", "(object extends (object extends null begin end) begin end)",
+        "(object extends true begin function known() -> 1; end)",
+    ];
+    for recv in receivers.iter() {
+        for name in EXTRA_METHOD_NAMES.iter() {
+            for nargs in 0..3usize {
+                kb += 1;
+                if !ctx.mine(kb) || (ctx.quick() && (kb.wrapping_mul(0x9E37_79B9_7F4A_7C15).wrapping_add(ctx.seed) >> 24) % 3 != 0) {
+                    continue;
+                }
+                let args: Vec<String> = (0..nargs).map(|a| (a + 1).to_string()).collect();
+                let src = format!("print(\"before\\n\");\nlet r = {};\nprint(\"~\\n\", r.{}({}));\nprint(\"after\\n\");\n", recv, name, args.join(", "));
+                match real::parse(&src) {
+                    Ok(ast) => {
+                        let mut rng = ctx.rng("C14builtins", kb);
+                        let j = judge(rep, "C14", &format!("no-extra-builtin:{}.{}/{}", recv, name, nargs), &ast, &src, &mut rng, JudgeOpts::fast());
+                        if j.judged {
+                            rep.bump("c14-no-extra-builtins", if j.outcome.failed() { "must fail" } else { "defined" });
+                        }
+                    }
+                    Err(_) => rep.skip("method name not expressible in source"),
+                }
+            }
+        }
+    }
     let n = ctx.share(150_000, 4_000_000);
     let cli_every = (n / if ctx.quick() { 10 } else { 300 }).max(1);
     for i in 0..n {
